@@ -122,7 +122,20 @@ def check(model: Model, run: Run) -> None:
                 run.ob("V4-unknown-tags-skipped", ok, {"reader": short(res.func), "alternatives": [repr(sp) for sp, _ in n.alts]})
                 if not ok:
                     run.fail(Finding("V4-unknown-tags-skipped", res.func, "dispatch loop without skip_value", f"{short(res.func)}: a tag-dispatch loop does not skip unknown elements (it would never terminate or reject them)", ""))
-                # DEFAULT components: the alternative for a boolean must really read a boolean
+                # a component without a tag of its own (UNIVERSAL identifier) is recognised by its position, which a loop over
+                # the remaining elements does not have: a later unrecognised element of the same universal type would be taken for it
+                for sp, nodes in n.alts:
+                    ucls = sp.cls_name if sp.how == "header" else (sp.tag.cls_name if sp.tag is not None else None)
+                    if n.loop and ucls == "UNIVERSAL":
+                        for x in nodes:
+                            if x.kind in ("prim", "cons") and not x.appended_to:
+                                run.ob("V7-positional-component-read-once", False, {"reader": short(res.func), "alternative": repr(sp)})
+                                run.fail(Finding("V7-positional-component-read-once", res.func, f"{sp!r} -> {x.var or x.brief()[:40]}",
+                                                 f"{short(res.func)} reads the untagged component `{x.var}` ({sp!r}) inside its loop over trailing elements: every later element of "
+                                                 "that universal type overwrites it, so an unrecognised trailing element changes the decoded value",
+                                                 f"{model.relpath(model.functions[res.func].module) if res.func in model.functions else ''}:{x.line}"))
+                    elif ucls == "UNIVERSAL":
+                        run.ob("V7-positional-component-read-once", True, {"reader": short(res.func), "alternative": repr(sp)})
                 for sp, nodes in n.alts:
                     for x in nodes:
                         if x.kind == "prim":
